@@ -117,6 +117,10 @@ def node_body(n, codes, is_root):
             # branch, so copy exactly RETURNDATASIZE bytes when it fits the window statically (payloads do)
             items += ["RETURNDATASIZE", "PUSH0", ("push", win_off), "RETURNDATACOPY"]
         else:
+            if c["outcome"] in ("short", "shortrev"):
+                # the callee hands back fewer bytes than the window: the rest of the window keeps what the caller had there
+                for k in range(w):
+                    items += [("pushn", 32, int.from_bytes(bytes([0xB0 + (k % 16)]) * 32, "big")), ("push", win_off + 32 * k), "MSTORE"]
             items += [("push", 32 * w), ("push", win_off), ("push", 32), ("push", XARG)]
             if c["kind"] in ("CALL", "CALLCODE"):
                 items += value_code(c, is_root)
@@ -152,6 +156,10 @@ def outcome_code(n, size_words, extra=None):
         return [("push", 32 * size_words), ("push", PBASE), "RETURN"]
     if o == "revert":
         return [("push", 32 * size_words), ("push", PBASE), "REVERT"]
+    if o == "short":  # only the first 36 bytes of the payload
+        return [("push", 36), ("push", PBASE), "RETURN"]
+    if o == "shortrev":  # revert with the first 4 bytes of the payload
+        return [("push", 4), ("push", PBASE), "REVERT"]
     if o == "invalid":
         return ["INVALID"]
     if o == "stop":
